@@ -99,7 +99,7 @@ def patterns(kinds, edges, full):
     b = base('out')
     idxs = range(len(edges)) if full else range(min(1, len(edges)))
     for e in idxs:
-        for filt in ('reject', 'condnone', 'unknown'):
+        for filt in ('reject', 'condnone', 'condnone2', 'unknown'):
             if b[e][2] == 'fwd':
                 continue    # a Repeat's forwarding event has no filter / fixed event type
             pats.append(tuple((i, j, ek, filt if x == e else f) for x, (i, j, ek, f) in enumerate(b)))
@@ -176,7 +176,9 @@ def configs(tier):
                     continue
                 for pat in patterns(ks, edges, False)[:3 if 'F' in ks else 2]:
                     ung.append(dict(kinds=ks, edges=pat, seqs=('all', 1, ('valid',)), gated=False))
-    return out + ung
+    extra = [dict(kind='notrans-loop', via=via, kinds=('N',), edges=(), seqs=('all', 1, ('valid',)), gated=True)
+             for via in ('direct', 'relay', 'relay2')]
+    return out + ung + extra
 
 
 # ------------------------------------------------------------------ reference
@@ -197,7 +199,7 @@ class RefNet:
         _i, j, _ek, filt = edge
         if filt == 'reject':
             return
-        if filt == 'condnone':
+        if filt in ('condnone', 'condnone2'):
             if j in self.active:
                 raise Rec(j)
             return
@@ -427,6 +429,8 @@ def build(cfg, gate):
         et = etype_of(kinds, edges, j)
         if filt == 'condnone':
             et = edzed.EventCond(None, et)     # values are truthy -> 'no event'
+        elif filt == 'condnone2':
+            et = edzed.EventCond(edzed.EventCond(None, et), et)    # nested, resolves to 'no event' as well
         flt = [gatef] + ([rejectf] if filt == 'reject' else [])
         if filt == 'unknown':
             et = 'vt_no_such_event'
@@ -669,8 +673,62 @@ def cfg_key(cfg):
     return (cfg['kinds'], cfg['edges'], cfg['gated'], bool(cfg.get('debug')))
 
 
+class NoTrans(edzed.FSM):
+    STATES = ['a', 'b']
+    EVENTS = [('tg', 'b', 'a'), ('go', 'a', 'b')]
+
+
+def run_notrans_loop(cfg, acc):
+    """An on_notrans event that finds its way back to the FSM that is still handling the rejected event."""
+    viol = []
+    res = {}
+    with Sim(max_iterations=3000) as sim:
+        if cfg['via'] == 'direct':
+            kw = dict(on_notrans=edzed.Event('fsm', 'go'))
+        else:
+            kw = dict(on_notrans=edzed.Event('r1', 'ev', efilter=edzed.DataEdit.add(value=1)))
+        fsm = NoTrans('fsm', **kw)
+        if cfg['via'] == 'relay':
+            PBlock('r1', on_output=edzed.Event('fsm', 'go', efilter=edzed.not_from_undef))
+        elif cfg['via'] == 'relay2':
+            PBlock('r1', on_output=edzed.Event('r2', 'put', efilter=edzed.not_from_undef))
+            MInput('r2', initdef='i0', on_output=edzed.Event('fsm', 'go', efilter=edzed.not_from_undef))
+
+        async def driver():
+            task = asyncio.create_task(sim.circuit.run_forever())
+            await sim.circuit.wait_init()
+            try:
+                res['ret'] = edzed.ExtEvent(fsm, 'tg').send()     # no transition from state a
+            except BaseException as err:    # pylint: disable=broad-except
+                res['raised'] = err
+            await sim.loop.idle()
+            res['error'] = sim.circuit.error
+            res['done'] = task.done()
+            res['state'] = fsm.state
+            await stop(sim.circuit)
+        try:
+            sim.run(driver())
+        except Livelock as err:
+            return [('events-circulate-forever', str(err))]
+    acc.execs += 1
+    acc.outcome(('notrans-loop', cfg['via'], repr(res.get('error')), res.get('state')))
+    acc.state(('notrans-loop', cfg['via']))
+    if not isinstance(res.get('error'), edzed.EdzedCircuitError) or not res.get('done'):
+        viol.append(('recursion-not-refused',
+                     f"on_notrans event returning to its FSM ({cfg['via']}): the FSM is still handling the "
+                     f"rejected event, but circuit.error={res.get('error')!r}, simulation finished="
+                     f"{res.get('done')}, FSM state {res.get('state')!r}, send() -> {res.get('ret')!r} / {res.get('raised')!r}"))
+    else:
+        acc.count('recursion_refused')
+    return viol
+
+
 def run_config(cfg):
     acc = Acc()
+    if cfg.get('kind') == 'notrans-loop':
+        for sig, msg in run_notrans_loop(cfg, acc):
+            acc.violation(f"C11:{sig}", msg, cfg=cfg)
+        return acc
     _mode, maxlen, variants = cfg['seqs']
     for seq in ext_sequences(cfg['kinds'], maxlen, variants):
         viol = run_seq(cfg, seq, acc)
